@@ -92,27 +92,33 @@ def run_case(c, kind, builder, detector, mean, rng):
         else:
             base = abtem.FrozenPhonons(atoms, num_configs=k, sigmas=0.12, seed=seeds)
             fp = abtem.AtomsEnsemble(displaced_configurations(base), ensemble_mean=mean)
-        ep = exit_planes_arg(c["spec"]) if builder != "prism" else None
+        ep = exit_planes_arg(c["spec"]) if not builder.startswith("prism") else None
         mk = lambda a: abtem.Potential(a, gpts=16, slice_thickness=2.0, exit_planes=ep, projection="infinite")
         pot = mk(fp)
         if kind.endswith("_built"):
             pot = pot.build(lazy=False)
-        det = {"waves": None, "annular": abtem.AnnularDetector(inner=10, outer=40 if builder == "prism" else 60),
+        det = {"waves": None, "annular": abtem.AnnularDetector(inner=10, outer=40 if builder.startswith("prism") else 60),
                "pixelated": abtem.PixelatedDetector(max_angle=None)}[detector]
         if builder == "plane":
             wave, kw = abtem.PlaneWave(energy=100e3), {}
-        elif builder == "prism":
-            # the PRISM route: the S-matrix of every configuration, reduced at the scan positions
+        elif builder in ("prism", "prism_built"):
+            # the PRISM route: the S-matrix of every configuration, reduced at the scan positions; prism_built: interpolation 2 and the
+            # S-matrix of ALL configurations built eagerly as one array object before it is reduced
+            built = builder == "prism_built"
+
             class _Prism:
                 def multislice(self, p, detectors=None, lazy=False, max_batch="auto", scan=None):
-                    S = abtem.SMatrix(potential=p, energy=100e3, semiangle_cutoff=25.0)
+                    S = abtem.SMatrix(potential=p, energy=100e3, semiangle_cutoff=25.0, interpolation=2 if built else 1)
+                    if built and not lazy:
+                        S = S.build(lazy=False)
+                        return S.reduce(scan=scan) if detectors is None else S.scan(scan=scan, detectors=detectors)
                     return S.reduce(scan=scan, lazy=lazy) if detectors is None else S.scan(scan=scan, detectors=detectors, lazy=lazy)
             wave, kw = _Prism(), {"scan": abtem.CustomScan(np.array([[1.0, 1.5], [2.5, 0.5]]))}
         else:
             wave, kw = abtem.Probe(energy=100e3, semiangle_cutoff=25), {"scan": abtem.CustomScan(np.array([[1.0, 1.5], [2.5, 0.5]]))}
         use_mean = mean and detector != "waves"
         import contextlib
-        with (sink if builder != "prism" else contextlib.nullcontext()):
+        with (sink if not builder.startswith("prism") else contextlib.nullcontext()):
             res = wave.multislice(pot, detectors=det, lazy=False, **kw)
         full = arr(res)
         configs = displaced_configurations(fp)
@@ -172,8 +178,9 @@ def run(ctx: Ctx):
               ("atoms_ensemble", "plane", "pixelated", False), ("atoms_ensemble", "probe", "annular", True), ("frozen_phonons", "plane", "pixelated", True),
               ("frozen_phonons", "prism", "waves", False), ("frozen_phonons", "prism", "pixelated", False), ("atoms_ensemble", "prism", "annular", True),
               ("atoms_ensemble_labelled_built", "plane", "waves", False), ("frozen_phonons_built", "probe", "annular", False),
-              ("atoms_ensemble_labelled_built", "probe", "pixelated", False)]
-    for j, c in enumerate(cases[: (36 if quick else 400)]):
+              ("atoms_ensemble_labelled_built", "probe", "pixelated", False),
+              ("frozen_phonons", "prism_built", "waves", False), ("atoms_ensemble", "prism_built", "pixelated", False)]
+    for j, c in enumerate(cases[: (42 if quick else 400)]):
         kind, builder, det, mean = combos[j % len(combos)]
         t = run_case(c, kind, builder, det, mean, rng)
         meta = {"case": c, "kind": kind, "builder": builder, "detector": det, "mean": mean}
